@@ -1,13 +1,19 @@
 #!/bin/bash
-# one-time setup after a fresh restore: build the native driver, pre-dump MIR, pre-build the Kani harness crate (all offline)
+# one-time setup after a fresh restore: pre-dump the MIR of the three feature configurations, build the native driver in the
+# configurations the checks use, pre-build the Kani harness crate (all offline). Every check rebuilds from /repo's working tree
+# itself (cargo / the MIR cache are keyed by the sources), so this only warms caches.
 set -e
 cd "$(dirname "$0")"
 export CARGO_NET_OFFLINE=true
 python3-vt - <<'PY'
 import sys; sys.path.insert(0, 'engine')
 import common
-common.load_mir('std')
+for f in ('std', 'nostd', 'cranelift'): common.load_mir(f)
 from driver import Driver
-Driver('dev').build(); Driver('release').build()
+Driver('dev').build(); Driver('release').build(); Driver('dev', ('std', 'cranelift')).build(); Driver('dev', ()).build()
+try:
+    import kani_run
+    if hasattr(kani_run, 'prebuild'): kani_run.prebuild()
+except Exception as e: print('kani prebuild skipped:', e)
 print('setup ok')
 PY
